@@ -17,13 +17,16 @@ meta = {
     "author": "independent sub-agent that saw only the property text and a scratch worktree",
     "confirmed": {
         "ran": ["tools/confirm_seed.sh %s  (cargo test --workspace --offline --no-fail-fast with the "
-                "change; demo `cargo run --offline` with the change and after `git stash`)" % sid,
+                "change; demo `cargo run --offline` with the change and after `git apply -R` of the patch)" % sid,
                 "git -C /repo apply seeded/%s/patch.diff; ./check <props>; git -C /repo checkout -- ." % sid],
         "tests_same_passing_set": "TESTS: same" in log,
         "demo_exit_with_change": [l for l in log.splitlines() if l.startswith("exit=")][0:1],
         "demo_exit_without_change": [l for l in log.splitlines() if l.startswith("exit=")][1:2],
     },
     "caught_by": [c.strip() for c in caught.split(";") if c.strip()],
+    # re-run by tools/selftest.py seed:<id>
+    "checks": [{"property": c.strip().split(".")[0], "expect": "fires", "key": c.strip()}
+               for c in caught.split(";") if c.strip()],
     "initially_missed": missed,
 }
 json.dump(meta, open(os.path.join(d, "meta.json"), "w"), indent=1)
